@@ -39,6 +39,9 @@ NP_KERNELS = [
     ]),
     ('msm/msm.py', 'MsmNorm', None, [
         ('row_normalize_matrix', dict(params=['L[L[Rat]]'], ret='L[L[Rat]]')),
+        ('equilibrium_population', dict(
+            params=['L[L[Rat]]', 'Bool'], ret='L[Rat]',
+            externals={'linalg.left_eigenvectors': ('ext_left_eigenvectors', ['L[L[Rat]]', 'Int'], 'T[L[Rat],L[L[Rat]]]', ['matrix', 'nvals'])})),
     ]),
     ('plot/_ck_test.py', 'PlotCkTest', None, [
         ('_split_array', dict(params=['L[Int]', 'Int'], ret='L[L[Int]]')),
@@ -144,6 +147,7 @@ class NpFn(Fn):
         self.cls = cls
         self.selfattrs = [(a, parse_type(t)) for a, t in sig.get('selfattrs', [])]
         self.externals = {k: (v[0], [parse_type(p) for p in v[1]], parse_type(v[2])) for k, v in sig.get('externals', {}).items()}
+        self.ext_argnames = {k: (v[3] if len(v) > 3 else None) for k, v in sig.get('externals', {}).items()}
         args = [a.arg for a in node.args.args]
         self.has_self = bool(args and args[0] == 'self')
         if self.has_self:
@@ -177,6 +181,7 @@ class NpFn(Fn):
         for n in ast.walk(node):
             if isinstance(n, ast.Name) and n.id in ('x_', 'y_', 'r_'):
                 raise Unsupported('%s: variable name %s is reserved by the translator' % (node.name, n.id))
+        self.scope_outer, self.fresh_in_scope = set(), set()
         self.declared_np = {}     # name -> type, variables declared so far (sequential emission)
         self.rename, self.version = {}, {}
         self.depth = 0
@@ -589,6 +594,11 @@ class NpFn(Fn):
                 if not is_vec(t) or t[1] == 'Bool':
                     raise Unsupported('%s: np.diag of %s' % (self.name, t))
                 return pre, '(npDiag (0 : %s) %s)' % (t[1], c), ('L', t)
+            if name in ('np.zeros', 'np.empty') and 'dtype' in kw and isinstance(kw['dtype'], ast.Attribute) and kw['dtype'].attr == 'dtype' \
+                    and not isinstance(args[0], ast.Tuple):
+                _c0, t0 = sub(kw['dtype'].value)
+                a, _ = sub(args[0])
+                return pre, '(pyFull1 %s (0 : %s))' % (a, elem(t0)), ('L', elem(t0))
             if name in ('np.zeros', 'np.empty') and 'dtype' not in kw:
                 shape = args[0]
                 if isinstance(shape, ast.Tuple) and len(shape.elts) == 2:
@@ -652,10 +662,21 @@ class NpFn(Fn):
                 if en not in self.used_ext:
                     self.used_ext.append(en)
                 cs = []
-                for x, pt in zip(args, pts):
+                actual = list(args)
+                if kw:
+                    names = self.ext_argnames.get(name)
+                    if not names:
+                        raise Unsupported('%s: keyword call of external %s' % (self.name, name))
+                    for nm in names[len(actual):]:
+                        if nm not in kw:
+                            raise Unsupported('%s: call of external %s misses %s' % (self.name, name, nm))
+                        actual.append(kw[nm])
+                    if len(actual) != len(names) or set(kw) - set(names):
+                        raise Unsupported('%s: call of external %s' % (self.name, name))
+                for x, pt in zip(actual, pts):
                     c, t = sub(x, want=pt)
                     cs.append(self.coerce(c, t, pt))
-                if len(cs) != len(pts) or kw:
+                if len(cs) != len(pts):
                     raise Unsupported('%s: call of external %s' % (self.name, name))
                 c, t = eff('%s %s' % (en, ' '.join(cs)), rt)
                 return pre, c, t
@@ -716,9 +737,108 @@ class NpFn(Fn):
     def lname(self, name):
         return self.rename.get(name, name)
 
+    def ensure_local(self, name, ind):
+        """inside a merged branch an element assignment to a variable of the enclosing block first copies it under a new name"""
+        if name in self.scope_outer and name not in self.fresh_in_scope and name in self.declared_np:
+            return self.bind_np(name, self.lname(name), self.declared_np[name], ind)
+        return []
+
+    @staticmethod
+    def _assigned_in(stmts):
+        out = []
+
+        def add(t):
+            if isinstance(t, ast.Name):
+                if t.id != '_' and t.id not in out:
+                    out.append(t.id)
+            elif isinstance(t, ast.Tuple):
+                for e in t.elts:
+                    add(e)
+            elif isinstance(t, ast.Subscript):
+                add(t.value)
+        for st in stmts:
+            if isinstance(st, ast.Assign):
+                for t in st.targets:
+                    add(t)
+            elif isinstance(st, ast.AugAssign):
+                add(st.target)
+        return out
+
+    def phi_if(self, s, ind):
+        """`if` whose branches introduce or re-type variables: each branch becomes its own `do` block that returns the
+        variables assigned in BOTH branches; they are re-declared after the `if` (a φ-node)"""
+        for n in ast.walk(s):
+            if isinstance(n, (ast.Return, ast.Break, ast.Continue, ast.For, ast.While)) or (isinstance(n, ast.If) and n is not s):
+                raise Unsupported('%s: control flow inside a merged if-branch' % self.name)
+        sp = ' ' * ind
+        pre, c, t = self.ex(s.test)
+        if t == 'Int':
+            c, t = '(%s != 0)' % c, 'Bool'
+        if t != 'Bool':
+            raise Unsupported('%s: condition of type %s' % (self.name, t))
+        out = [sp + p for p in pre]
+        saved = (dict(self.env), dict(self.declared_np), dict(self.rename), dict(self.version), set(self.scope_outer), set(self.fresh_in_scope), self.depth)
+        results = []
+        tmp0 = self.tmp
+        for branch in (s.body, s.orelse):
+            self.env, self.declared_np, self.rename = dict(saved[0]), dict(saved[1]), dict(saved[2])
+            self.version = dict(self.version)          # version counters keep growing: names stay unique over both branches
+            self.scope_outer, self.fresh_in_scope, self.depth = set(saved[1]), set(), 0
+            lines = self.block(branch, ind + 4) if branch else []
+            final = {w: (self.lname(w), self.env[w]) for w in self._assigned_in(branch) if w in self.declared_np}
+            results.append((lines, final))
+        ver = dict(self.version)
+        self.env, self.declared_np, self.rename, _v, self.scope_outer, self.fresh_in_scope, self.depth = \
+            saved[0], saved[1], saved[2], saved[3], saved[4], saved[5], saved[6]
+        self.version = ver
+        (l1, f1), (l2, f2) = results
+        live = [w for w in f1 if w in f2]
+        for w in list(f1) + list(f2):
+            if w not in live and w in saved[1]:
+                live.append(w)           # assigned in one branch only, but known before: the other branch passes the old value on
+        if not live:
+            raise Unsupported('%s: merged if without a common variable' % self.name)
+        types = []
+        for w in live:
+            t1 = f1[w][1] if w in f1 else saved[1][w]
+            t2 = f2[w][1] if w in f2 else saved[1][w]
+            if t1 != t2:
+                raise Unsupported('%s: %s has type %s in one branch and %s in the other' % (self.name, w, t1, t2))
+            types.append(t1)
+
+        def tup(f):
+            names = [(f[w][0] if w in f else saved[2].get(w, w)) for w in live]
+            return names[0] if len(names) == 1 else '(%s)' % ', '.join(names)
+        tn = self.fresh()
+        out.append(sp + 'let %s ← do' % tn)
+        out.append(sp + '  if %s then' % c)
+        out.extend(l1)
+        out.append(sp + '    pure %s' % tup(f1))
+        out.append(sp + '  else')
+        out.extend(l2)
+        out.append(sp + '    pure %s' % tup(f2))
+        proj = tn
+        for k, (w, ty) in enumerate(zip(live, types)):
+            last = (k == len(live) - 1)
+            acc = proj if (last or len(live) == 1) else proj + '.1'
+            if len(live) == 1:
+                acc = tn
+            out.extend(self.bind_np(w, acc, ty, ind))
+            proj = proj + '.2'
+        return out
+
     def bind_np(self, name, code, typ, ind):
         sp = ' ' * ind
         old = self.declared_np.get(name)
+        outer = name in self.scope_outer and name not in self.fresh_in_scope
+        if outer and old is not None:
+            # inside a merged branch: a variable of the enclosing block is re-declared under a new Lean name
+            self.fresh_in_scope.add(name)
+            self.version[name] = self.version.get(name, 1) + 1
+            self.rename[name] = '%s_%d' % (name, self.version[name])
+            self.declared_np[name] = typ
+            self.env[name] = typ
+            return [sp + 'let mut %s : %s := %s' % (self.lname(name), lean_type(typ), code)]
         if old is None or (old != typ and self.depth == 0):
             if self.depth != 0 and old is None:
                 raise Unsupported('%s: %s is first assigned inside a branch or loop — add a `locals` hint' % (self.name, name))
@@ -814,7 +934,12 @@ class NpFn(Fn):
                         emit_pre(pm)
                         pv, cv, tv = self.ex(s.value, want=elem(ta))
                         emit_pre(pv)
-                        out.append(sp + '%s ← npMaskSet %s %s %s' % (arr, arr, cm, self.coerce(cv, tv, elem(ta))))
+                        out.extend(self.ensure_local(t.value.id, ind))
+                        arr = self.lname(t.value.id)
+                        if is_vec(tv):
+                            out.append(sp + '%s ← npMaskAssign %s %s %s' % (arr, arr, cm, self.coerce(cv, tv, ta)))
+                        else:
+                            out.append(sp + '%s ← npMaskSet %s %s %s' % (arr, arr, cm, self.coerce(cv, tv, elem(ta))))
                         return out
                     if tm == ('L', ('L', 'Bool')) and is_mat(ta):
                         emit_pre(pm)
@@ -822,6 +947,14 @@ class NpFn(Fn):
                         emit_pre(pv)
                         out.append(sp + '%s ← npMaskSet2 %s %s %s' % (arr, arr, cm, self.coerce(cv, tv, elem(ta))))
                         return out
+        if isinstance(s, ast.If) and self.depth == 0 and not self.scope_outer:
+            # simple form first (branches only update variables that already exist with the same type); otherwise merge the branches
+            snap = (dict(self.env), dict(self.declared_np), dict(self.rename), dict(self.version), self.tmp)
+            try:
+                return self._plain_if(s, ind)
+            except Unsupported:
+                self.env, self.declared_np, self.rename, self.version, self.tmp = snap
+                return self.phi_if(s, ind)
         if isinstance(s, ast.If) and self.typeof(s.test) == 'Int':
             # truthiness of an integer
             s = ast.If(test=ast.Compare(left=s.test, ops=[ast.NotEq()], comparators=[ast.Constant(value=0)]), body=s.body, orelse=s.orelse)
@@ -840,6 +973,15 @@ class NpFn(Fn):
                     raise Unsupported('%s: element assignment to the re-typed variable %s' % (self.name, base.id))
         return Fn.stmt(self, s, ind)
 
+    def _plain_if(self, s, ind):
+        if self.typeof(s.test) == 'Int':
+            s = ast.If(test=ast.Compare(left=s.test, ops=[ast.NotEq()], comparators=[ast.Constant(value=0)]), body=s.body, orelse=s.orelse)
+        self.depth += 1
+        try:
+            return Fn.stmt(self, s, ind)
+        finally:
+            self.depth -= 1
+
     def assign_to(self, target, code, typ, ind):
         if isinstance(target, ast.Name):
             return self.bind_np(target.id, code, typ, ind)
@@ -851,6 +993,7 @@ class NpFn(Fn):
             self.env['self_' + a.lstrip('_')] = t
         self.declared_np = dict(self.env)
         self.rename, self.version = {}, {}
+        self.scope_outer, self.fresh_in_scope = set(), set()
         self.late, self.declared = set(), set()
         self.tmp = 0
         lines = []
@@ -976,7 +1119,8 @@ def run_module(ns, relfile, emitted, ext_impl):
 
 
 # oracle stand-ins for RUNNING the translated code: the oracle's answer is supplied by the harness in the request
-EXT_IMPL = {'ext_peq': 'MsmVerif.GenCodec.oracleVec "peq"', 'ext_argsort': 'MsmVerif.GenCodec.oracleTable "argsort"'}
+EXT_IMPL = {'ext_peq': 'MsmVerif.GenCodec.oracleVec "peq"', 'ext_argsort': 'MsmVerif.GenCodec.oracleTable "argsort"',
+            'ext_left_eigenvectors': 'MsmVerif.GenCodec.oracleEig "eig"'}
 
 
 def translate_all(repo, files, probs):
